@@ -115,8 +115,36 @@ fn block() -> BoxedStrategy<Vec<Step>> {
     .boxed()
 }
 
+/// Command names and sub-command words are case-insensitive: one step in three is spelled in
+/// lower or mixed case (the log must not depend on the spelling).
+fn respell(word: &[u8], how: u8) -> Bytes {
+    match how % 3 {
+        0 => word.to_ascii_lowercase(),
+        1 => word.iter().enumerate().map(|(i, c)| if i % 2 == 0 { c.to_ascii_lowercase() } else { c.to_ascii_uppercase() }).collect(),
+        _ => word.to_vec(),
+    }
+}
+
 fn history(max_blocks: usize) -> BoxedStrategy<Vec<Step>> {
-    proptest::collection::vec(block(), 3..=max_blocks).prop_map(|b| b.concat()).boxed()
+    (proptest::collection::vec(block(), 3..=max_blocks), proptest::collection::vec(any::<u8>(), 8..40))
+        .prop_map(|(b, noise)| {
+            let mut steps = b.concat();
+            for (i, st) in steps.iter_mut().enumerate() {
+                let how = noise[i % noise.len()];
+                if how % 3 != 0 {
+                    continue;
+                }
+                if let Step::Cmd { args, .. } | Step::Send { args, .. } = st {
+                    let name = upper(&args[0]);
+                    args[0] = respell(&args[0], how / 3);
+                    if matches!(name.as_str(), "SCRIPT") && args.len() > 1 {
+                        args[1] = respell(&args[1], how / 7);
+                    }
+                }
+            }
+            steps
+        })
+        .boxed()
 }
 
 fn read_aof(server: &Server) -> Result<Vec<Cmd>, String> {
@@ -441,7 +469,7 @@ pub fn run(tier: Tier, seed: u64, replay: Option<Value>) -> i32 {
         tier,
         seed,
         "exploration",
-        "generated histories of 3..14 blocks over 3 connections against a fresh server with --appendonly: write commands of every family (incl. GETSET, HMSET, PEXPIRE, SETEX/PSETEX, SETRANGE, SPOP with and without count, XADD *, ZPOPMAX, RENAMENX, FLUSHDB, immediate BLPOP/BRPOP, binary and CRLF-bearing arguments, failing commands), SELECT among databases 0/1/5/15, MULTI..EXEC blocks, EVAL scripts issuing 1..3 redis.call/pcall writes, SCRIPT LOAD + EVALSHA, and a BLPOP/BRPOP client blocked until another client's push. Oracles: (1) after every step the AOF on disk decodes into whole arrays of bulk strings without a partial tail; (2) the frames replayed in file order over one connection into an empty server give the same canonical dump (values, TTL presence) of all 16 databases; (3) the log without SELECT frames is a subsequence of the executed commands in execution order, with SPOP as SREM of the returned members, XADD * with the returned ID and served blocking pops as LPOP/RPOP. Non-trivial = effective writes through >= 2 paths and at least one of {non-zero database, random-outcome command, blocking pop effect}; distinct by hash of the step list",
+        "generated histories of 3..14 blocks over 3 connections against a fresh server with --appendonly: write commands of every family (incl. GETSET, HMSET, PEXPIRE, SETEX/PSETEX, SETRANGE, SPOP with and without count, XADD *, ZPOPMAX, RENAMENX, FLUSHDB, immediate BLPOP/BRPOP, binary and CRLF-bearing arguments, failing commands), SELECT among databases 0/1/5/15, MULTI..EXEC blocks, command names and SCRIPT sub-commands spelled in lower or mixed case in one step of three, EVAL scripts issuing 1..3 redis.call/pcall writes, SCRIPT LOAD + EVALSHA, and a BLPOP/BRPOP client blocked until another client's push. Oracles: (1) after every step the AOF on disk decodes into whole arrays of bulk strings without a partial tail; (2) the frames replayed in file order over one connection into an empty server give the same canonical dump (values, TTL presence) of all 16 databases; (3) the log without SELECT frames is a subsequence of the executed commands in execution order, with SPOP as SREM of the returned members, XADD * with the returned ID and served blocking pops as LPOP/RPOP. Non-trivial = effective writes through >= 2 paths and at least one of {non-zero database, random-outcome command, blocking pop effect}; distinct by hash of the step list",
     ));
     ev.lock().unwrap().assumptions.push("durability (fsync policy) is not observable without crashing the kernel and is not claimed; the harness does the replay itself (the server's start-up replay is a no-op)".into());
     let mk = |_: usize| -> Result<Wk, String> { Ok(Wk { replay: Server::start(ServerOpts::default())?, live: None }) };
